@@ -19,6 +19,7 @@ import PdModel.Proto
 * `run DIR* | OP*`                    → `ok wf=<yes|no|noshape> DIR*` | `FileExistsError` | `ELOOP`
       DIR = `F=<name>=<content>` | `L=<name>=<target>`; OP = `W=<name>=<content>` | `U=<name>` | `S=<name>=<target>`
       the answer lists the final directory sorted by name.
+* `exec DIR* | OP*`                   → the same without the `wf=` token (stream of the OS primitives)
 -/
 namespace Determinism
 
@@ -93,6 +94,21 @@ def showDir (d : Dir) : String :=
     | some (.link t) => some ("L=" ++ encName n ++ "=" ++ encName t)
     | none => none)
 
+/-- `run` (answer carries the `wfRun` verdict on the log's shape) and `exec` (plain) -/
+def runOp (withWf : Bool) (rest : List String) : String :=
+  let dirToks := rest.takeWhile (· ≠ "|")
+  let opToks := (rest.dropWhile (· ≠ "|")).drop 1
+  match dirToks.mapM decDirEntry, opToks.mapM decOp with
+  | some d, some ops =>
+    let wf := if !withWf then "" else match shapeOf ops with
+      | some (b, l, a) => if wfRun b l a then " wf=yes" else " wf=no"
+      | none => " wf=noshape"
+    (match run ops d with
+     | .ok d' => "ok" ++ wf ++ (if d'.isEmpty then "" else " " ++ showDir d')
+     | .error .fileExists => "FileExistsError"
+     | .error .eloop => "ELOOP")
+  | _, _ => "bad-op"
+
 def handle (args : List String) : String :=
   match args with
   | "sorted" :: ns =>
@@ -134,19 +150,8 @@ def handle (args : List String) : String :=
       let cfg : Cfg := { allSuffixes := a, sourceSuffixes := s, extSuffixes := e, introspectC := ic == "1" }
       " ".intercalate ("ok" :: (addPackage cfg (lsOf fs) (fs.length + 1) [r]).map showEv)
     | _, _, _, _, _ => "bad-op"
-  | "run" :: rest =>
-    let dirToks := rest.takeWhile (· ≠ "|")
-    let opToks := (rest.dropWhile (· ≠ "|")).drop 1
-    match dirToks.mapM decDirEntry, opToks.mapM decOp with
-    | some d, some ops =>
-      let wf := match shapeOf ops with
-        | some (b, l, a) => if wfRun b l a then "yes" else "no"
-        | none => "noshape"
-      (match run ops d with
-       | .ok d' => "ok wf=" ++ wf ++ (if d'.isEmpty then "" else " " ++ showDir d')
-       | .error .fileExists => "FileExistsError"
-       | .error .eloop => "ELOOP")
-    | _, _ => "bad-op"
+  | "run" :: rest => runOp true rest
+  | "exec" :: rest => runOp false rest
   | _ => "bad-op"
 
 end Determinism
